@@ -110,6 +110,10 @@ function _save_mod(modname, mod)
     loaded_modules[modname] = mod
 end
 
+-- Gives the calling invocation its own copy of a shared library table
+-- (defined below, after retained_modules)
+local library_for_caller
+
 -- Re-implements require()
 function new_require(modname)
     -- If the module has already been loaded after last Lua reset, then
@@ -117,7 +121,7 @@ function new_require(modname)
     -- print("new_require", modname)
     local mod = _cached_mod(modname)
     if mod ~= nil then
-        return mod
+        return library_for_caller(modname, mod)
     end
     -- Load the module and create initialization function
     local fn, msg = new_loader(modname)
@@ -130,7 +134,7 @@ function new_require(modname)
         -- whenever we reset the Lua environment.
         _save_mod(modname, ret)
     end
-    return ret
+    return library_for_caller(modname, ret)
 end
 
 -- Implements mw.loadData function, which always returns the same data without
@@ -482,6 +486,37 @@ retained_modules[module_namespace_name .. ":TemplateStyles"] = true
 retained_modules[module_namespace_name .. ":columns"] = true
 retained_modules[module_namespace_name .. ":collation"] = true
 -- retained_modules[module_namespace_name .. ":glossary"] = true
+
+-- The built-in libraries retained above (math, table, mw, mw_text, libraryUtil,
+-- ustring, ...; not the modules stored as pages) are shared by all invocations
+-- and pages.  require() must not hand the shared table to module code: a field
+-- set through it would be seen by every later invocation.  Each invocation
+-- gets one copy per library; for math, table and mw that is the table it
+-- already has as a global.
+local library_copies = setmetatable({}, { __mode = "k" })
+local library_is_global = { math = true, table = true, mw = true }
+local module_prefix = module_namespace_name .. ":"
+library_for_caller = function(modname, mod)
+    local top = _python_top_env()
+    if top == nil or type(mod) ~= "table" or retained_modules[modname] ~= true
+        or string.sub(modname, 1, #module_prefix) == module_prefix then
+        return mod
+    end
+    local copies = library_copies[top]
+    if copies == nil then
+        copies = {}
+        library_copies[top] = copies
+    end
+    if copies[modname] == nil then
+        local own = library_is_global[modname] and rawget(top, modname)
+        if type(own) == "table" then
+            copies[modname] = own
+        else
+            copies[modname] = mw_clone(mod)
+        end
+    end
+    return copies[modname]
+end
 
 -- Note: the following are examples that cannot be retained:
 --   Module:headword (saves page title)
